@@ -155,13 +155,13 @@ theorem conversions_preserve_sequence (z : Bool) (env : Env) (w : W) (s : Nat) (
       OnlySlot w (step z env (.sliceToArr s n) w) s (if cs.length = n then .arr cs cap else .slice cs cap) [] [] ∧
       (effOf z (.sliceToArr s n) w).2 = (if cs.length = n then "Ok" else "Err")) ∧
     (∀ cap, w.slots[s]? = some (.vec cs cap) →
-      OnlySlot w (step z env (.intoBoxedSlice s) w) s (.slice cs (some cap)) [] [] ∧
-      OnlySlot w (step z env (.fromVec s) w) s (.slice cs (some cap)) [] []) ∧
+      OnlySlotV w (step z env (.intoBoxedSlice s) w) s (.slice cs (some cap)) [] [] ∧
+      OnlySlotV w (step z env (.fromVec s) w) s (.slice cs (some cap)) [] []) ∧
     (∀ cap, w.slots[s]? = some (.slice cs (some cap)) →
       OnlySlot w (step false env (.sliceToVec s) w) s (.vec cs cap) [] []) :=
   ⟨fun cap h => (arr_to_slice_spec z env w s cs cap h).1,
    fun cap n h hn => ⟨(slice_to_arr_spec z env w s n cs cap h hn).1, (slice_to_arr_spec z env w s n cs cap h hn).2.1⟩,
-   fun cap h => ⟨(into_boxed_slice_spec z env w s cs cap h).1, (into_boxed_slice_spec z env w s cs cap h).2.1⟩,
+   fun cap h => into_boxed_slice_spec z env w s cs cap h,
    fun cap h => slice_to_vec_spec env w s cs cap h⟩
 
 /-- `Box::from_iter_in`: the items in iteration order, each with a fresh id, nothing dropped -/
@@ -172,7 +172,7 @@ theorem from_iter_in_order (z : Bool) (env : Env) (w : W) (s : Nat) (xs : List N
   from_iter_spec z env w s xs h
 
 /-- `Box` never releases (or acquires) arena memory: every operation other than a constructor
-(`Bump::alloc`) and dropping an arena `Vec` (RawVec's dealloc) leaves `allocated_bytes`, the chunk
+(`Bump::alloc`), the `Vec` methods `into_boxed_slice` / `From<Vec>` and dropping an arena `Vec` (RawVec's dealloc) leaves `allocated_bytes`, the chunk
 count and the bytes in use unchanged and causes no allocator event. -/
 theorem arena_untouched (z : Bool) (env : Env) (op : Op) (w : W) (h1 : op.entersArena = false)
     (h2 : ∀ s pa, op = .drop s pa → ∀ cs cap, w.slots[s]? ≠ some (.vec cs cap)) :
